@@ -857,9 +857,14 @@ pub fn orchestrate(a: OrchArgs) -> i32 {
             agg.violations.entry(i).or_insert(v);
         }
     }
-    if det_mismatch > 0 {
+    if det_mismatch > 0 && agg.violations.is_empty() {
         let _ = fs::remove_dir_all(&scratch);
         harness_error(&format!("determinism self-check failed: {} of {} re-executed runs produced a different event-log digest", det_mismatch, sample.len()));
+    }
+    if det_mismatch > 0 {
+        // with a violation in hand the verdict stands; the mismatch says that what a run observes depends on earlier
+        // runs in the same process (state kept outside the objects under test), which is worth knowing
+        println!("note: {} of {} runs re-executed in a fresh process produced a different event log: behaviour depends on process history", det_mismatch, sample.len());
     }
 
     // 4. violations
